@@ -42,7 +42,7 @@ N_ORDER = 6
 
 
 def plan(tier, seed):
-    maxdev = 2 if tier == "quick" else 3
+    maxdev = 3 if tier == "quick" else 4
     shards = []
     for k in (1, 2, 3):
         comps = NAMES[:k]
